@@ -1587,8 +1587,12 @@ _dispatch_wait_compute_wlh(dispatch_lane_t dq, dispatch_sync_context_t dsc)
 	dispatch_queue_t tq = dq->do_targetq;
 	uint64_t tq_state = _dispatch_wait_prepare(tq);
 
+	// The target of a mutable queue can have changed since the caller looked
+	// at the role of dq: a queue that now targets a root queue is the base
+	// of its hierarchy, there is nothing to walk beyond the root queue
 	if (_dq_state_is_suspended(tq_state) ||
-			_dq_state_is_base_anon(tq_state)) {
+			_dq_state_is_base_anon(tq_state) ||
+			dx_hastypeflag(tq, QUEUE_ROOT)) {
 		dsc->dsc_release_storage = false;
 		dsc->dc_data = DISPATCH_WLH_ANON;
 	} else if (_dq_state_is_base_wlh(tq_state)) {
